@@ -7,8 +7,10 @@ pub mod cancel;
 pub mod chan;
 pub mod condvar;
 pub mod mutex;
+pub mod park;
 pub mod rwlock;
 pub mod sem;
+pub mod spawn;
 pub mod timed;
 
 pub struct Family {
@@ -27,6 +29,8 @@ pub const FAMILIES: &[Family] = &[
     Family { name: "condvar", runtime: true, max_steps: 300_000, run: condvar::run },
     Family { name: "rwlock", runtime: true, max_steps: 300_000, run: rwlock::run },
     Family { name: "cancel", runtime: true, max_steps: 300_000, run: cancel::run },
+    Family { name: "park", runtime: true, max_steps: 300_000, run: park::run },
+    Family { name: "spawn", runtime: true, max_steps: 400_000, run: spawn::run },
 ];
 
 pub fn lookup(name: &str) -> Option<&'static Family> {
@@ -57,6 +61,20 @@ fn chan_c07(g: &GenCfg) -> BoxedStrategy<Case> {
 }
 
 pub const PROPS: &[Prop] = &[
+    Prop {
+        id: "C01",
+        quick: 6000,
+        thorough: 300_000,
+        rule: "spawn family: a generated spawn tree of 1-16 coroutines (spawned by the main thread, by 0-2 user threads, or by other coroutines up to depth 3; builder options none/name/custom stack size (not pooled)/id (pinned queue); pool capacity 1-8) with bodies of yield/sleep/park_timeout/shared-mutex sections/spawns, ending in a value or a panic; spawners wait with join / wait()+join / is_done() polling / cancel+join; generated schedule. Non-trivial = >= 2 coroutines AND at least one pre-emption AND at least one coroutine was resumed on a different OS thread than before. Distinct = distinct hash of (program, config, schedule).",
+        units: &[Unit { fam: "spawn", label: "spawn", share: 1, strategy: spawn::strategy }],
+    },
+    Prop {
+        id: "C02",
+        quick: 6000,
+        thorough: 300_000,
+        rule: "park family: 1-3 parkers (coroutine::park / park_timeout(1h), or a fresh Blocker per round parked in thread or coroutine context with None / Some(1h)) over 1-6 rounds, 1-5 unparkers (thread/coroutine) that call unpark 1-3 times per round after the previous park has returned, immediately or after a generated delay; generated schedule. Non-trivial = at least one pre-emption AND an unpark completed before the park it serves began or overlapped it. Distinct = distinct hash of (program, config, schedule).",
+        units: &[Unit { fam: "park", label: "park", share: 1, strategy: park::strategy }],
+    },
     Prop {
         id: "C09",
         quick: 6000,
